@@ -19,6 +19,29 @@ bind there (k-th `?` / `%s` <- parameters[k]; `:N` / `$N` <- parameters[N-1]; `:
         numeric / numeric_dollar:  every occurrence of name is replaced by ":" / "$" + str(1 + index of name in positiontup
         without the post-compile names)
   compile() or _init_compiled raising for one paramstyle but not for `named` is a failure of that paramstyle.
+
+Executemany dimension (several parameter sets for one statement).  Functions under contract in addition:
+`DefaultDialect._deliver_insertmanyvalues_batches`, `SQLCompiler._deliver_insertmanyvalues_batches` (both its positional
+and its named branch), `DefaultExecutionContext._init_compiled` for a list of parameter sets and the dialect's
+`do_execute` / `do_executemany` — driven through a real `Engine` / `Connection.execute(stmt, [P1 .. Pn])` over the
+dialect object of the (family, paramstyle) and a recording stub DBAPI connection, so that the observation is literally
+what reaches `cursor.execute(statement, parameters)` / `cursor.executemany(statement, [parameters, ..])`.  The stub
+answers a RETURNING statement with one row per VALUES row.  lit() is applied to every (statement, parameter set) that
+reached the cursor; in the named / pyformat styles a placeholder left without a value shows up as residue.
+  (M1, rows delivered)  INSERT: the VALUES rows of all literalised INSERT statements that reached the cursor (all
+        batches; a trailing sentinel counter of the INSERT..SELECT..FROM (VALUES ..) form removed, the counters of one
+        batch being distinct) are, as a multiset, the rows P1 .. Pn that were passed (in the column order of the table)
+  (M2, ground truth)    UPDATE / DELETE: the i-th literalised statement == compile(statement with the values of Pi in
+        place, literal_binds=True);  INSERT without RETURNING: a literalised batch == compile(insert(t).values([the rows
+        of the batch]), literal_binds=True)
+  (M3, peers)           the sequence of literalised statements == the one obtained with paramstyle `named`
+  (M4)                  no placeholder residue; an exception for one paramstyle but not for `named` is a failure of that
+        paramstyle (an exception raised after every passed row was delivered comes from the stub's canned rows: ignored)
+Scope of the dimension: statement kind {INSERT, INSERT..RETURNING, INSERT..RETURNING sort_by_parameter_order,
+INSERT..RETURNING <expression with a bind outside VALUES>, UPDATE, DELETE} x every ordered pair of distinct names of
+NAMES (as the names of two columns of the target table for INSERT — parameter keys are column names —, as the names of
+two bindparam()s for UPDATE / DELETE) x (number of parameter sets, insertmanyvalues_page_size) in {(1, -), (2, -),
+(3, 2): two batches} x paramstyle x family.
 """
 import hashlib
 import itertools
@@ -228,13 +251,287 @@ def judge(label, desc, family):
     return n, fails, texts, counts
 
 
+
+# ------------------------------------------------------------------------------------------------ executemany dimension
+MANY_KINDS = ("insert", "insert_ret", "insert_ret_sorted", "insert_ret_expr", "update", "delete")
+MANY_SIZES = ((1, None), (2, None), (3, 2))          # (number of parameter sets, insertmanyvalues_page_size)
+
+
+_VALUES = re.compile(r"\bVALUES\s")
+
+
+class _RecCursor:
+    """recording DBAPI cursor; a RETURNING statement is answered with one canned row per VALUES row"""
+    arraysize = 1
+    rowcount = -1
+
+    def __init__(self, log, connection=None):
+        self.log, self.description, self._rows, self.connection = log, None, [], connection
+
+    def execute(self, statement, parameters=None):
+        self.log.append(("execute", statement, parameters))
+        m_ = re.search(r"\bRETURNING\b(.*)$", statement, re.S)
+        if m_ is None:
+            self.description, self._rows = None, []
+            return
+        ncols = m_.group(1).count(",") + 1
+        nrows = _VALUES.split(statement, 1)[1].count("), (") + 1 if _VALUES.search(statement) else 1
+        self.description = [("c%d" % i, None, None, None, None, None, None) for i in range(ncols)]
+        self._rows = [tuple([r + 1] * ncols) for r in range(nrows)]
+
+    def executemany(self, statement, parameters):
+        self.log.append(("executemany", statement, list(parameters)))
+        self.description, self._rows = None, []
+
+    def fetchall(self):
+        r, self._rows = self._rows, []
+        return r
+
+    def fetchmany(self, size=None):
+        return self.fetchall()
+
+    def fetchone(self):
+        return self._rows.pop(0) if self._rows else None
+
+    def setinputsizes(self, *a, **kw):
+        pass
+
+    def close(self):
+        pass
+
+
+class _RecConnection:
+    autocommit = False
+    notices = ()            # psycopg2's execution context reads cursor.connection.notices after execution
+
+    def __init__(self, log):
+        self.log = log
+
+    def cursor(self, *a, **kw):
+        return _RecCursor(self.log, self)
+
+    def commit(self):
+        pass
+
+    def rollback(self):
+        pass
+
+    def close(self):
+        pass
+
+
+class _StubDBAPI:
+    """stands for the driver module: exception classes and type-code constants (any other attribute is its own name)"""
+    class Error(Exception):
+        pass
+
+    def __getattr__(self, name):
+        if name.startswith("__"):
+            raise AttributeError(name)
+        return name
+
+
+_ENGINES = {}
+
+
+def _engine(family, ps):
+    """a real Engine over the (family, paramstyle) dialect object and the recording stub; returns (engine, log)"""
+    key = family + "+" + ps
+    if key not in _ENGINES:
+        from sqlalchemy.engine import Engine, make_url
+        from sqlalchemy.pool import NullPool
+        log = []
+        d = C.get_dialect(key, fresh=True)           # an object of its own: it gets a driver module
+        d.dbapi = _StubDBAPI()
+        _ENGINES[key] = (Engine(NullPool(lambda: _RecConnection(log)), d, make_url(d.name + "://")), log)
+    return _ENGINES[key]
+
+
+def third_name(names):
+    """the name of the bind outside VALUES of kind insert_ret_expr: another element of NAMES, varying with the pair"""
+    return [n for n in NAMES if n not in names][(NAMES.index(names[0]) + NAMES.index(names[1])) % (len(NAMES) - 2)]
+
+
+def many_case(kind, names, nrows):
+    """-> (statement for executemany, [P1..Pn], [expected row tuples] | None, [statement with the values of Pi in place] | None, table)"""
+    from sqlalchemy import Column, Integer, MetaData, Table, bindparam, delete, insert, update
+    n1, n2 = names
+    t = Table("t", MetaData(), Column("id", Integer, primary_key=True), Column(n1, Integer), Column(n2, Integer), Column("plain", Integer))
+    vals = [(1000 * (i + 1) + 1, 1000 * (i + 1) + 2, 1000 * (i + 1) + 3) for i in range(nrows)]
+    if kind.startswith("insert"):
+        stmt = insert(t)
+        if kind == "insert_ret":
+            stmt = stmt.returning(t.c.id)
+        elif kind == "insert_ret_sorted":
+            stmt = stmt.returning(t.c.id, sort_by_parameter_order=True)
+        elif kind == "insert_ret_expr":
+            stmt = stmt.returning((t.c.id + bindparam(third_name(names), 4999)).label("r"))
+        return stmt, [{n1: a, n2: b, "plain": c_} for a, b, c_ in vals], vals, None, t
+    # UPDATE / DELETE: the names are names of explicit bindparam()s (a parameter key that is a column name would be a SET value)
+    t = Table("t", MetaData(), Column("id", Integer, primary_key=True), Column("plain", Integer))
+    if kind == "update":
+        mk = lambda x, y: update(t).where(t.c.id == x).values(plain=y)                                   # noqa: E731
+    else:
+        mk = lambda x, y: delete(t).where(t.c.id == x).where(t.c.plain > y)                              # noqa: E731
+    return (mk(bindparam(n1), bindparam(n2)), [{n1: a, n2: b} for a, b, _ in vals], None,
+            [mk(bindparam(n1, a), bindparam(n2, b)) for a, b, _ in vals], t)
+
+
+_DML = re.compile(r"^\s*(INSERT|UPDATE|DELETE)\b")
+_ROW = re.compile(r"\(\s*((?:-?\d+|NULL)(?:::\w+(?:\(\d+\))?)?(?:\s*,\s*(?:-?\d+|NULL)(?:::\w+(?:\(\d+\))?)?)*)\s*\)")
+_RESIDUE = {"pyformat": re.compile(r"%\([^)]*\)s"), "named": re.compile(r"(?<![:\w]):[A-Za-z_]\w*")}
+
+
+def observe_many(kind, names, nrows, page, family, ps):
+    """('ok', [literalised statements that reached the cursor, in order], error after the cursor calls | None)
+    | ('documented' | 'internal', info, None) when nothing reached the cursor"""
+    eng, log = _engine(family, ps)
+    stmt, psets, _, _, _ = many_case(kind, names, nrows)
+    del log[:]
+    err = None
+    try:
+        with warnings.catch_warnings():
+            warnings.simplefilter("ignore")
+            with eng.connect() as conn:
+                conn.execute(stmt, psets, execution_options={"insertmanyvalues_page_size": page} if page else {})
+    except Exception as e:  # noqa: BLE001
+        err = e
+    calls = [x for x in log if _DML.match(x[1])]
+    if not calls:
+        if err is None:
+            return "internal", "nothing reached the cursor", None
+        e0 = getattr(err, "orig", None) or err              # with a driver module present, errors before the cursor arrive wrapped in StatementError
+        if isinstance(e0, C.DOCUMENTED):
+            return "documented", type(e0).__name__, None
+        return "internal", "%s in %s: %s" % (type(err).__name__, C.raising_function(err), str(err)[:120]), None
+    lits = []
+    for how, st, pr in calls:
+        for p_ in ([pr] if how == "execute" else pr):
+            lits.append(_norm(literalise(st, p_ if p_ is not None else (), ps)))
+    return "ok", lits, ("%s in %s: %s" % (type(err).__name__, C.raising_function(err), str(err)[:120]) if err is not None else None)
+
+
+def rows_of(lits):
+    """the VALUES rows (tuples of int / None) of the literalised INSERT statements, or a description of what is wrong"""
+    out = []
+    for t_ in lits:
+        if not isinstance(t_, str):
+            return "not literalisable: %r" % (t_,)
+        if not _VALUES.search(t_):
+            return "no VALUES clause: %s" % t_[:200]
+        body = _VALUES.split(t_, 1)[1].split(" RETURNING ")[0]
+        rows = [tuple(None if v.strip().startswith("NULL") else int(v.split("::")[0]) for v in m_.group(1).split(",")) for m_ in _ROW.finditer(body)]
+        if not rows:
+            return "no literal VALUES row in: %s" % t_[:300]
+        if "sen_counter" in body:
+            if len({r[-1] for r in rows}) != len(rows):
+                return "sentinel counters of one batch are not distinct: %s" % t_[:300]
+            rows = [r[:-1] for r in rows]
+        out += rows
+    return out
+
+
+def many_truth(kind, names, nrows, page, family, lits):
+    """M2: None (holds / not applicable) or (expected, actual)"""
+    from sqlalchemy import insert
+    _, psets, vals, inline, t = many_case(kind, names, nrows)
+    d = C.get_dialect(family + "+named")
+    with warnings.catch_warnings():
+        warnings.simplefilter("ignore")
+        try:
+            if inline is not None:
+                want = [_norm(str(s_.compile(dialect=d, compile_kwargs={"literal_binds": True}))) for s_ in inline]
+            elif kind == "insert":
+                want = None
+                for cand in ([psets[i:i + (page or nrows)] for i in range(0, nrows, page or nrows)], [[p_] for p_ in psets]):     # batched, or one statement per set
+                    w_ = [_norm(str((insert(t).values(b) if len(b) > 1 else (insert(t).values(b[0]).inline() if nrows > 1 else insert(t).values(b[0]))).compile(dialect=d, compile_kwargs={"literal_binds": True}))) for b in cand]
+                    if want is None or len(w_) == len(lits):
+                        want = w_
+            else:
+                return None
+        except Exception:  # noqa: BLE001
+            return None
+    return None if want == lits else (want, lits)
+
+
+def judge_many(kind, names, nrows, page, family):
+    fails, texts, n = [], set(), 0
+    label = "many:%s[0=%s,1=%s%s]n%d%s" % (kind, names[0], names[1], ",2=" + third_name(names) if kind == "insert_ret_expr" else "", nrows, "p%d" % page if page else "")
+    styles = FAMILY_PARAMSTYLES.get(family, PARAMSTYLES)
+    obs = {ps: observe_many(kind, names, nrows, page, family, ps) for ps in styles}
+    ref = obs["named"]
+    counts = {}
+    _, _, vals, _, _ = many_case(kind, names, nrows)
+    for ps in styles:
+        oc, lits, err = obs[ps]
+        counts["many_" + oc] = counts.get("many_" + oc, 0) + 1
+        n += 1
+        inp = dict(label=label, many=dict(kind=kind, names=list(names), nrows=nrows, page=page), family=family, paramstyle=ps)
+        if oc != "ok":
+            if ref[0] == "ok":
+                fails.append(dict(function="many_%s:%s:%s" % ("raises_only_in" if oc == "documented" else "internal_error", ps, family), input=inp,
+                                  expected="as paramstyle named: %d statement(s) reach the cursor" % len(ref[1]), actual=lits))
+            continue
+        for t_ in lits:
+            texts.add(hashlib.md5((family + str(t_)).encode()).digest()[:8])
+        complete = True
+        n += 1
+        res = [t_ for t_ in lits if not isinstance(t_, str) or (ps in _RESIDUE and _RESIDUE[ps].search(t_))]
+        if res:
+            complete = False
+            fails.append(dict(function="M4_residue:%s:%s" % (ps, family), input=inp, expected="every placeholder has a value in the parameters handed to the cursor", actual=res[:2]))
+        if vals is not None:
+            n += 1
+            got = rows_of(lits)
+            if isinstance(got, str) or sorted(got, key=repr) != sorted(vals, key=repr):
+                complete = False
+                fails.append(dict(function="M1_rows_delivered:%s:%s" % (ps, family), input=inp, expected=[list(v) for v in vals], actual=got if isinstance(got, str) else [list(v) for v in got]))
+        if family not in NO_GROUND_TRUTH:
+            mt = many_truth(kind, names, nrows, page, family, lits)
+            n += 1
+            if mt is not None:
+                complete = False
+                fails.append(dict(function="M2_many_ground_truth:%s:%s" % (ps, family), input=inp, expected=mt[0], actual=mt[1]))
+        if ps != "named" and ref[0] == "ok":
+            n += 1
+            if lits != ref[1]:
+                complete = False
+                fails.append(dict(function="M3_many_vs_named:%s:%s" % (ps, family), input=inp, expected=ref[1], actual=lits))
+        if err is not None and ref[0] == "ok" and ref[2] is None and ps != "named" and complete is False:
+            fails.append(dict(function="many_raises_only_in:%s:%s" % (ps, family), input=inp, expected="as paramstyle named: no exception", actual=err))
+    return n, fails, texts, counts
+
+
+def many_catalogue(tier):
+    return [(kind, (n1, n2), nrows, page) for kind in MANY_KINDS for n1 in NAMES for n2 in NAMES if n1 != n2 for nrows, page in MANY_SIZES]
+
+
 def _worker(shard, nshards, tier, seed):
     import random
     cat = catalogue(tier)
     if seed:
         random.Random(seed).shuffle(cat)
     fams = QUICK_FAMILIES if tier == "quick" else THOROUGH_FAMILIES
-    out = dict(evals=0, failures=[], texts=set(), counts={}, n=len(cat), samples=[], gt=0)
+    out = dict(evals=0, failures=[], texts=set(), counts={}, n=len(cat), samples=[], gt=0, many=0, many_evals=0, many_samples=[])
+    mcat = many_catalogue(tier)
+    if seed:
+        random.Random(seed).shuffle(mcat)
+    out["many"] = len(mcat)
+    for i, (kind, names, nrows, page) in enumerate(mcat):
+        if i % nshards != shard:
+            continue
+        for fam in fams:
+            n, fails, texts, counts = judge_many(kind, names, nrows, page, fam)
+            out["evals"] += n
+            out["many_evals"] += n
+            out["failures"] += fails
+            out["texts"].update(texts)
+            for k, v in counts.items():
+                out["counts"][k] = out["counts"].get(k, 0) + v
+        if not out["many_samples"] and i % 97 == shard and nrows == 3:
+            o_ = observe_many(kind, names, nrows, page, fams[-1] if tier == "quick" else "postgresql.psycopg2", "pyformat")
+            if o_[0] == "ok":
+                out["many_samples"].append(dict(kind=kind, names=list(names), parameter_sets=nrows, page_size=page, family="postgresql.psycopg2", paramstyle="pyformat", literalised=o_[1]))
     for i, (label, desc) in enumerate(cat):
         if i % nshards != shard:
             continue
@@ -262,7 +559,10 @@ def run(run, tier, seed, args):
     res = C.shard_run(_worker, 48, (tier, seed))
     texts, failures, samples, counts = set(), [], [], {}
     evals = 0
+    many_evals, many_samples = 0, []
     for r in res:
+        many_evals += r["many_evals"]
+        many_samples += r["many_samples"]
         texts.update(r["texts"])
         failures += r["failures"]
         samples += r["samples"]
@@ -277,14 +577,19 @@ def run(run, tier, seed, args):
         rule="catalogue = every statement shape x every choice of %d bind slots x every assignment of the %d bind names to them (remaining slots: anonymous literals); every bind "
              "carries a distinct sentinel integer; each statement is compiled for every paramstyle of every family and run through the real _init_compiled; an evaluation is one "
              "clause (K1 ground truth, K2 peer, K3 ghost, or an exception comparison) on one (statement, family, paramstyle); distinct_nontrivial = distinct "
-             "(family, literalised SQL text), counted by hash" % (2 if tier == "quick" else 3, len(NAMES)),
-        samples=samples[:3],
+             "(family, literalised SQL text), counted by hash; executemany dimension: every case of its catalogue is executed through a real Engine over a recording stub DBAPI for "
+             "every paramstyle of every family, an evaluation being one clause (M1 rows delivered, M2 ground truth, M3 peer, M4 residue / exception comparison) on one "
+             "(case, family, paramstyle); its literalised statements count into distinct_nontrivial the same way" % (2 if tier == "quick" else 3, len(NAMES)),
+        samples=samples[:3] + many_samples[:1],
         exhaustive=True,
-        scope="%d statements = %d shapes %s x slot choices x names %s; paramstyles %s; dialect families %s (ground truth not available on %s: bind casts; %s)"
-              % (res[0]["n"], len(shapes()), sorted(shapes()), NAMES, list(PARAMSTYLES), list(fams), sorted(NO_GROUND_TRUTH & set(fams)),
+        scope="executemany: %d cases = kinds %s x ordered pairs of distinct names x (parameter sets, insertmanyvalues_page_size) %s; single execution: "
+              "%d statements = %d shapes %s x slot choices x names %s; paramstyles %s; dialect families %s (ground truth not available on %s: bind casts; %s)"
+              % (res[0]["many"], list(MANY_KINDS), [list(x) for x in MANY_SIZES], res[0]["n"], len(shapes()), sorted(shapes()), NAMES, list(PARAMSTYLES), list(fams), sorted(NO_GROUND_TRUTH & set(fams)),
                  "; ".join("%s only %s" % (k, list(v)) for k, v in FAMILY_PARAMSTYLES.items() if k in fams) or "all paramstyles on every family"),
-        outcomes=counts)
+        outcomes=counts, executemany_evaluations=many_evals)
     run.assumptions += [
+        "executemany dimension: the stub DBAPI answers RETURNING with canned rows (one per VALUES row); what SQLAlchemy does with the rows after the cursor calls is outside; "
+        "target tables have an autoincrement integer primary key (implicit sentinel), client-side sentinel columns are not in scope",
         "the value a driver binds at a placeholder is the one at its position / under its name in the parameters object handed to cursor.execute (DBAPI paramstyle semantics); drivers are outside",
         "sentinel values are integers bound against integer columns, so literal rendering and repr() agree; string / date binds are not in scope",
         "`_init_compiled` runs on a stub connection (no cursor is executed); regex engine and % formatting are CPython's",
@@ -294,7 +599,11 @@ def run(run, tier, seed, args):
 
 def replay(data):
     inp = data["input"]
-    n, fails, _, _ = judge(inp.get("label", "?"), inp["stmt"], inp["family"])
+    if "many" in inp:
+        m_ = inp["many"]
+        n, fails, _, _ = judge_many(m_["kind"], tuple(m_["names"]), m_["nrows"], m_["page"], inp["family"])
+    else:
+        n, fails, _, _ = judge(inp.get("label", "?"), inp["stmt"], inp["family"])
     cls = data.get("function", "")
     mine = [f for f in fails if f["function"] == cls] or [f for f in fails if f["input"]["paramstyle"] == inp.get("paramstyle")]
     if mine:
